@@ -40,6 +40,7 @@ type State struct {
 	lockedOnce bool
 	ghostEnv map[string]Val // loop/ghost variables by name
 	depth    int
+	ghostDone bool
 }
 
 func (st *State) clone() *State {
@@ -56,6 +57,7 @@ func (st *State) clone() *State {
 		lockedOnce: st.lockedOnce,
 		ghostEnv:   st.ghostEnv,
 		depth:      st.depth,
+		ghostDone:  st.ghostDone,
 	}
 	for k, v := range st.env {
 		n.env[k] = v
@@ -126,7 +128,7 @@ func arraySort(name string) string {
 		return "(Array Int (Array Int " + leaf + "))"
 	case 'D':
 		return "(Array Int (Array Int Bool))"
-	case 'L':
+	case 'L', 'S':
 		return "(Array Int Int)"
 	case 'G':
 		return leaf
@@ -141,6 +143,10 @@ func arrName(space, key, path, sort string) string {
 
 // heapGet returns the current symbol of a heap array in heap map h.
 func (c *FnCtx) heapGet(h map[string]string, name string) string {
+	if c.knownArrays == nil {
+		c.knownArrays = map[string]bool{}
+	}
+	c.knownArrays[name] = true
 	if s, ok := h[name]; ok {
 		return s
 	}
@@ -171,6 +177,10 @@ func (c *FnCtx) heapHavoc(st *State, name string) string {
 	n := c.fresh(name, arraySort(name))
 	st.heap[name] = n
 	c.touched[name] = true
+	if c.knownArrays == nil {
+		c.knownArrays = map[string]bool{}
+	}
+	c.knownArrays[name] = true
 	// the nil map stays empty in every heap state
 	switch name[0] {
 	case 'D':
